@@ -23,7 +23,8 @@ import (
 // normally; (2) a catalogue of out-of-subset constructs at every position of
 // a generated host package; (3) type-preserving mutations of the shipped
 // examples; (4) mixtures of k broken declarations among good ones;
-// (5) the pinned crash witnesses under /verif/known/C07/<signature>/.
+// (5) the pinned crash witnesses under /verif/known/C07/<signature>/;
+// (6) many errors in many packages of one invocation (c07stress.go).
 
 // c07Input is one package handed to goose.
 type c07Input struct {
@@ -126,8 +127,23 @@ func c07ExecN(bin, modDir, outDir string, env []string, flags []string, patterns
 		time.Sleep(300 * time.Millisecond)
 		res = runGoose(bin, modDir, outDir, 3*time.Minute, env, flags, patterns...)
 	}
+	// the package loader (golang.org/x/tools/go/packages) gives up with this line when the export data of a standard-
+	// library package disappears from the go build cache between `go list` and the load (a concurrent `go clean -cache`,
+	// which the framework itself issues when the disk fills): the environment, not the translation — once more, and if it
+	// persists the input counts as "does not load"
+	toolchainGaveUp := func(r core.ExecResult) bool {
+		return r.Code == 1 && strings.Contains(r.Stderr, "internal error: package ") && strings.Contains(r.Stderr, " without types was imported from ")
+	}
+	if toolchainGaveUp(res) {
+		time.Sleep(500 * time.Millisecond)
+		res = runGoose(bin, modDir, outDir, 3*time.Minute, env, flags, patterns...)
+	}
 	o := &c07Outcome{Exit: res.Code, Stderr: ansiRe.ReplaceAllString(res.Stderr, ""), TimedOut: res.TimedOut}
 	if res.TimedOut {
+		return o
+	}
+	if toolchainGaveUp(res) {
+		o.LoadError = true
 		return o
 	}
 	if isCrash(res) {
@@ -283,7 +299,7 @@ func (c *c07Ctx) judge(in *c07Input, o *c07Outcome, pkgDir string, outFile strin
 }
 
 func runC07(r *core.Run) (bool, string) {
-	r.SetRule("a case (evaluation) is one execution of the goose binary built from /repo on one type-correct Go package: a standard-library package (or its private copy with already-found crashing functions neutralised), an out-of-subset construct at one position of a generated host package, a type-checked mutant of a shipped example, a mixture of k broken declarations among good ones (with and without -ignore-errors), or a pinned crash witness; " +
+	r.SetRule("a case (evaluation) is one execution of the goose binary built from /repo on one type-correct Go package: a standard-library package (or its private copy with already-found crashing functions neutralised), an out-of-subset construct at one position of a generated host package, a type-checked mutant of a shipped example, a mixture of k broken declarations among good ones (with and without -ignore-errors), or a pinned crash witness; also one execution over several packages (multi-package scenarios; the stress family: P ∈ {2, 8, 24} packages × E ∈ {1, 20, 300} out-of-subset declarations each in one `./...` invocation under GOMAXPROCS 2 and 16, exactly one located error per broken declaration required); " +
 		"observed: exit status, stderr (crash markers; otherwise parsed strictly as [category]: message / code / goose file:line / src: file:line:col blocks + `N errors`), the emitted file; " +
 		"distinct = distinct (construct × position), crash signatures, and (category, message class) pairs of the errors seen")
 	r.Assume("a package goose itself reports as not loading (type errors, missing cgo) is outside the statement and only counted")
@@ -309,7 +325,9 @@ func runC07(r *core.Run) (bool, string) {
 	c.runMultiPackage()
 	c.runFileForms()
 	t5 := time.Now()
-	r.Set("phase_seconds", map[string]float64{"witnesses": t1.Sub(t0).Seconds(), "stdlib": t2.Sub(t1).Seconds(), "catalogue": t3.Sub(t2).Seconds(), "mixtures": t4.Sub(t3).Seconds(), "mutants": t5.Sub(t4).Seconds()})
+	c.runStress()
+	t6 := time.Now()
+	r.Set("phase_seconds", map[string]float64{"witnesses": t1.Sub(t0).Seconds(), "stdlib": t2.Sub(t1).Seconds(), "catalogue": t3.Sub(t2).Seconds(), "mixtures": t4.Sub(t3).Seconds(), "mutants": t5.Sub(t4).Seconds(), "stress": t6.Sub(t5).Seconds()})
 
 	// evidence: crash classes with witnesses, error classes
 	cls := map[string]interface{}{}
